@@ -204,6 +204,9 @@ def inline_new_helpers(mod, pinned):
             helper = new[key]
             if any(n is helper for n in _ancestors(call)):
                 continue      # recursion
+            if any(isinstance(x, ast.Call) and ((isinstance(x.func, ast.Name) and x.func.id == helper.name) or (isinstance(x.func, ast.Attribute) and x.func.attr == helper.name))
+                   for x in ast.walk(helper)):
+                continue      # a recursive helper has no finite expansion
             st = _stmt_of(call)
             if st is None:
                 continue
